@@ -112,6 +112,7 @@ func init() {
 			}
 			return out
 		},
+		zz + "ModelTrace": func(i *Interp, _ *frame, _ *ssa.Function, a []value) value { return []value(nil) },
 		zz + "DeepEqual": func(i *Interp, _ *frame, _ *ssa.Function, a []value) value {
 			return deepEqual(a[0], a[1], map[[2]interface{}]bool{})
 		},
